@@ -3,7 +3,9 @@ mod c03;
 mod c10;
 mod c11;
 mod c12;
+mod c16;
 mod c19;
+mod net;
 mod params;
 mod coqfmt;
 mod rng;
@@ -121,6 +123,10 @@ fn main() {
             }
             o.write(&out, cmd, "From MLV Require Import model.Bytes model.Id model.Server model.Bencode model.Krpc model.Check10.", "c10case", "run10", shards);
         }
+        "c16" => {
+            let o = c16::generate(seed, scale);
+            o.write(&out, "c16", "From MLV Require Import model.Bytes model.MostRecent.", "c16case", "run16", shards);
+        }
         "c11" => {
             let o = c11::generate(seed, scale);
             o.write(&out, "c11", "From MLV Require Import model.Bytes model.Id model.Node model.Check11.", "c11case", "run11", shards);
@@ -128,6 +134,10 @@ fn main() {
         "c12" => {
             let o = c12::generate(seed, scale);
             o.write(&out, "c12", "From MLV Require Import model.Bytes model.Id model.Node model.Check11 model.Check12.", "c12case", "run12", shards);
+        }
+        "c16-one" => {
+            let mut r = rng::Rng::new(seed);
+            println!("{:?}", c16::run_lookup(&mut r, &[(1, b"a".to_vec()), (2, b"b".to_vec())], false));
         }
         "decode-hex" => {
             let h = arg(&args, "--hex").unwrap_or("");
